@@ -271,6 +271,14 @@ func VH_G_ClaimTask() {
 	}
 	if vhReply(k, out != nil, err) {
 		vx.Assert(out.Claimed == (k.res.ClaimTask.Status == t_api.StatusCreated), "C15:claimed-flag")
+		if k.res.ClaimTask.Status == t_api.StatusCreated {
+			// the claim payload lists exactly the promises the kernel returned: the root always, the leaf for a resume
+			ms := k.res.ClaimTask.Task.Mesg
+			_, hasRoot := out.Mesg.Promises["root"]
+			_, hasLeaf := out.Mesg.Promises["leaf"]
+			vx.Assert(out.Mesg != nil && out.Mesg.Type == string(ms.Type) && hasRoot && hasLeaf == (string(ms.Type) == "resume") && len(out.Mesg.Promises) == vhB(hasLeaf)+1, "C15:claim-payload-lists-the-kernels-promises")
+			vx.Assert(out.Mesg.Promises["root"].Id == ms.Root && out.Mesg.Promises["root"].Href == k.res.ClaimTask.RootPromiseHref, "C15:claim-payload-root")
+		}
 	}
 }
 
@@ -392,4 +400,11 @@ func VH_G_StatusTables() {
 		vx.Assert(int(st)/100 >= 200 && int(st)/100 <= 599, "C15:http-code-in-range")
 	}
 	vx.Reach("done")
+}
+
+func vhB(b bool) int {
+	if b {
+		return 1
+	}
+	return 0
 }
